@@ -1143,6 +1143,15 @@ def common_summaries():
                 outs.append((s, mk_ok(Unit())))
         return outs
 
+    @reg(r'^(crossbeam_channel::)?(TrySendError|SendError)::<.*>::into_inner$')
+    def cb_err_into_inner(ex, st, fn, argv):
+        e = argv[0]
+        if isinstance(e, Enum):
+            if not isinstance(e.disc, int):
+                raise Unsupported('into_inner on a send error of symbolic kind')
+            return [(st, e.payloads[e.disc].fields[0])]
+        return [(st, e.fields[0])]
+
     @reg(r'^crossbeam_channel::Sender::<.*>::send$|^Sender::<.*>::send$')
     def cb_send(ex, st, fn, argv):
         tx = deref(ex, st, argv[0])
